@@ -18,6 +18,21 @@ Theorem C34_duplicate_fails_before_any_op : forall m tree w roots inv e,
 Proof. exact discovery_error_no_shard_ops. Qed.
 Print Assumptions C34_duplicate_fails_before_any_op.
 
+(** discoverRoot's walk, specified by recursion on the reported relative path [q] ([b] = bare?): a directory that
+    is a repository ([repo_kind]: a ".git" directory or regular file, or a name ending in ".git" with an "objects"
+    directory) is reported itself and NOTHING below it is (fs.SkipDir); below any other directory exactly the
+    reports of its children are reported, each with the child's name in front; files and special files report
+    nothing.  The repository's name is then its relative path ([spec_of]: "/"-joined [q], Base(root) for [q] = [],
+    ".git" trimmed when bare) and its source is root/[q]. *)
+Theorem C34_discover_spec : forall e ch q b,
+  In (q, b) (walk e [] (NDir ch)) <->
+  match repo_kind e ch with
+  | Some b' => q = [] /\ b = b'
+  | None => exists nm c q', q = nm :: q' /\ In (nm, c) ch /\ In (q', b) (walk nm [] c)
+  end.
+Proof. exact walk_spec. Qed.
+Print Assumptions C34_discover_spec.
+
 (** Discovered names are pairwise distinct whenever discovery succeeds. *)
 Theorem C34_discovered_names_distinct : forall tree roots specs,
   discover tree roots = Ok specs -> NoDup (map sp_name specs).
